@@ -558,6 +558,9 @@ def _balance_chunksizes(chunks: tuple[int, ...]) -> tuple[int, ...]:
     new_chunks : tuple[int, ...]
         New chunks for Dask array with balanced sizes.
     """
+    if any(math.isnan(c) for c in chunks):
+        # An axis of unknown sizes can only be kept as it is.
+        return chunks
     if min(chunks) == 0:
         return chunks
 
